@@ -62,24 +62,17 @@ func (r *v12Real) call(o map[string]interface{}) string {
 	return ""
 }
 
-// settle waits until everything proposed has been applied and the
-// StreamDeleted announcements have run.
+// settle waits until everything proposed has been applied (the announcement of
+// a deleted stream to the groups is part of the apply of its DELETE_STREAM).
 func (r *v12Real) settle() {
 	if err := r.srv.getRaft().Barrier(20 * time.Second).Error(); err != nil {
 		r.t.Fatalf("INCONCLUSIVE: raft barrier: %v", err)
-	}
-	deadline := time.Now().Add(20 * time.Second)
-	for v12CountSD() > 0 {
-		if time.Now().After(deadline) {
-			r.t.Fatalf("INCONCLUSIVE: StreamDeleted goroutine did not finish")
-		}
-		time.Sleep(time.Millisecond)
 	}
 }
 
 func (r *v12Real) state() v12State {
 	g := v12Project(r.srv.metadata.GetConsumerGroup(v12GroupID))
-	st := v12State{Gs: map[string]v12Group{"A": g, "B": g}, Pend: map[string][]v12SD{"A": {}, "B": {}},
+	st := v12State{Gs: map[string]v12Group{"A": g, "B": g},
 		Parts: map[string]int32{}, Idx: r.idx}
 	for _, s := range r.streams {
 		st.Parts[s] = r.srv.metadata.countStreamPartitions(s)
